@@ -107,7 +107,7 @@ DoSetParams(s0, ev) ==
                   THEN PeelClosure(H, Pre(s1)) ELSE {}
     IN  [ s |-> [s1 EXCEPT !.known = known0],
           fails |-> F(ev.raw = 1 \/ ev.st = OK, "C09", "params-rejected")
-                    \cup F("cw_ok" \notin DOMAIN ev \/ ev.cw_ok = 1, IF ev.codec = 5 THEN "C16" ELSE "INFRA", "driver-codeword")
+                    \cup F("cw_ok" \notin DOMAIN ev \/ ev.cw_ok = 1, IF ev.codec = 5 THEN "C16" ELSE "INFRA,C06,C09", "driver-codeword")
                     \cup F((ev.codec = 5 /\ ev.st = OK /\ ev.raw = 0) => IsProductCode(H, ev.k, ev.r), "C16", "not-a-product-parity-code")
                     \cup cwFails
                     \cup (IF ev.st = OK THEN Common(ev) ELSE {}) ]
